@@ -193,12 +193,12 @@ def parse_cbmc(out, res):
 
 
 def kill_query(q):
-    p = getattr(q, 'proc', None)
-    if p is not None and p.poll() is None:
-        try:
-            os.killpg(os.getpgid(p.pid), 9)
-        except Exception:
-            pass
+    for p in [getattr(q, 'proc', None)] + [x[0] for x in (getattr(q, 'procs', None) or [])]:
+        if p is not None and p.poll() is None:
+            try:
+                os.killpg(os.getpgid(p.pid), 9)
+            except Exception:
+                pass
 
 
 def run_query(q, mem_gb=12):
@@ -225,11 +225,53 @@ def run_query(q, mem_gb=12):
         r.status = 'undecided'; r.note = 'cancelled (not needed any more)'
         q.result = r
         return r
-    proc = subprocess.Popen(['/usr/bin/time', '-f', 'RSSKB %M'] + cmd, stdout=subprocess.PIPE, stderr=subprocess.PIPE, text=True,
-                            preexec_fn=lim)
-    q.proc = proc
-    try:
-        out, err = proc.communicate(timeout=q.timeout)
+    # Delayed portfolio: MiniSat first; if it has not answered after a while, the same query is also given to CaDiCaL
+    # (SAT run times are heavy-tailed: an instance MiniSat does not finish in 300 s was solved by CaDiCaL in 10 s).  The
+    # first decisive answer wins; both are complete decision procedures for the same formula.
+    import tempfile
+    delay = max(45, q.timeout // 5)
+    procs = []
+
+    def start(extra, label):
+        fo = tempfile.TemporaryFile(mode='w+')
+        fe = tempfile.TemporaryFile(mode='w+')
+        pr = subprocess.Popen(['/usr/bin/time', '-f', 'RSSKB %M'] + cmd + extra, stdout=fo, stderr=fe, text=True, preexec_fn=lim)
+        procs.append((pr, fo, fe, label))
+        return pr
+    q.proc = start([], 'minisat')
+    q.procs = procs
+    decided = None
+    while True:
+        el = time.time() - t0
+        if q.cancelled or el > q.timeout:
+            break
+        for pr, fo, fe, label in procs:
+            if pr.poll() is not None and decided is None:
+                fo.seek(0); fe.seek(0)
+                out, err = fo.read(), fe.read()
+                ok = (pr.returncode == 0 and 'VERIFICATION SUCCESSFUL' in out) or (pr.returncode == 10 and 'VERIFICATION FAILED' in out)
+                if ok or len(procs) == 1 or all(p2.poll() is not None for p2, _, _, _ in procs):
+                    decided = (pr, out, err, label)
+        if decided:
+            break
+        if len(procs) == 1 and el > delay and 'cadical' not in ' '.join(cmd):
+            start(['--sat-solver', 'cadical'], 'cadical')
+        time.sleep(0.2)
+    for pr, fo, fe, label in procs:
+        if pr.poll() is None:
+            try:
+                os.killpg(os.getpgid(pr.pid), 9)
+            except Exception:
+                pass
+            pr.wait()
+    if decided is None:
+        if q.cancelled:
+            r.status = 'undecided'; r.note = 'cancelled (not needed any more)'
+        else:
+            r.status = 'undecided'
+            r.note = 'timeout after %ds (MiniSat%s)' % (q.timeout, ' and CaDiCaL' if len(procs) > 1 else '')
+    else:
+        pr, out, err, label = decided
         m = re.search(r'RSSKB (\d+)', err)
         r.rss_kb = int(m.group(1)) if m else 0
         parse_cbmc(out, r)
@@ -237,31 +279,26 @@ def run_query(q, mem_gb=12):
             first = out.split('\nTrace for ', 2)[1]
             r.hist = parse_history(first)
         unwind_fail = [k for k, v in r.asserts.items() if isinstance(k, str) and 'unwinding assertion' in k and v == 'FAILURE']
-        if q.cancelled:
-            r.status = 'undecided'; r.note = 'cancelled (not needed any more)'
-        elif proc.returncode == 0 and 'VERIFICATION SUCCESSFUL' in out:
+        if pr.returncode == 0 and 'VERIFICATION SUCCESSFUL' in out:
             r.status = 'pass'
-        elif proc.returncode == 10 and 'VERIFICATION FAILED' in out:
+        elif pr.returncode == 10 and 'VERIFICATION FAILED' in out:
             r.status = 'fail'
             other_fail = [k for k, v in r.asserts.items() if v == 'FAILURE' and not (isinstance(k, str) and 'unwinding assertion' in k)]
             if unwind_fail and not other_fail:
                 r.status = 'error'
                 r.note = 'unwinding bound too small: ' + ', '.join(unwind_fail[:3])
             elif unwind_fail:
-                # a loop ran past its bound on a path that also violates an assertion (e.g. a list turned cyclic by a use of an
-                # erased iterator): the assertion failures are the verdict, the unwinding failure is their consequence
                 r.note = 'unwinding assertion also failed (consequence of the failing assertions): ' + ', '.join(unwind_fail[:2])
         else:
             r.status = 'error'
-            r.note = 'cbmc exit %d: %s' % (proc.returncode, (out[-400:] + err[-400:]).replace('\n', ' | '))
-            if 'std::bad_alloc' in err or 'Out of memory' in err or 'out of memory' in (out + err).lower() or proc.returncode in (-9, 137, 134, -6):
+            r.note = 'cbmc exit %d: %s' % (pr.returncode, (out[-400:] + err[-400:]).replace('\n', ' | '))
+            if 'std::bad_alloc' in err or 'Out of memory' in err or 'out of memory' in (out + err).lower() or pr.returncode in (-9, 137, 134, -6):
                 r.status = 'undecided'
                 r.note = 'out of memory (limit %d GB)' % mem_gb
-    except subprocess.TimeoutExpired:
-        r.status = 'undecided'
-        r.note = 'timeout after %ds' % q.timeout
-        kill_query(q)
-        proc.communicate()
+        if label != 'minisat' and r.status in ('pass', 'fail'):
+            r.note = (r.note + ' ' if r.note else '') + 'decided by CaDiCaL (MiniSat still running after %ds)' % delay
+    for pr, fo, fe, label in procs:
+        fo.close(); fe.close()
     r.secs = round(time.time() - t0, 2)
     if r.status in ('pass', 'fail'):
         json.dump(r.to_json(), open(vpath, 'w'))
